@@ -211,10 +211,11 @@ pub fn load_mode(mode: &str, file: &[u8], ext: &str, opts_flatten: bool) -> Stri
 }
 
 pub fn run_vcd(args: &[&str]) -> String {
-    let mode = args[0];
+    // `<mode>@<ext>`: the temporary file (path based entry points) gets this extension instead of `vcd`
+    let (mode, ext) = args[0].split_once('@').unwrap_or((args[0], "vcd"));
     let mut file = bytes_of_hex(args[2]);
     file.extend_from_slice(&bytes_of_hex(args[3]));
-    load_mode(mode, &file, "vcd", false)
+    load_mode(mode, &file, ext, false)
 }
 
 
